@@ -640,3 +640,31 @@ func (c *Ctx) Finish() error {
 }
 
 func (c *Ctx) Summary() *Summary { return &c.sum }
+
+// CountDistinct counts the distinct 8-byte case hashes over all distinct-*.bin files of a shard
+// output directory (the driver's merge step; done here because a sort of a []uint64 is cheap
+// where a Python set of tens of millions of entries is not).
+func CountDistinct(dir string) (int, error) {
+	files, err := filepath.Glob(filepath.Join(dir, "distinct-*.bin"))
+	if err != nil {
+		return 0, err
+	}
+	var all []uint64
+	for _, f := range files {
+		b, err := os.ReadFile(f)
+		if err != nil {
+			return 0, err
+		}
+		for i := 0; i+8 <= len(b); i += 8 {
+			all = append(all, binary.LittleEndian.Uint64(b[i:]))
+		}
+	}
+	sort.Slice(all, func(i, j int) bool { return all[i] < all[j] })
+	n := 0
+	for i := range all {
+		if i == 0 || all[i] != all[i-1] {
+			n++
+		}
+	}
+	return n, nil
+}
